@@ -156,7 +156,7 @@ def run(tier, seed):
     try:
         with os.fdopen(fd, "w") as f:
             json.dump(fed_small, f)
-        rr = run_tlc("MC_CaseSpace_C17", "CONSTANT MaxN = 4\nINIT CInit\nNEXT CNext\nCHECK_DEADLOCK FALSE\n", workers=1, env={"TRACE_FILE": fn}, timeout=300)
+        rr = run_tlc("MC_CaseSpace_C17", "CONSTANT MaxN = 4\nINIT CInit\nNEXT CNext\nCHECK_DEADLOCK FALSE\n", workers=1, env={"TRACE_FILE": fn}, timeout=1500)
     finally:
         os.unlink(fn)
     if not rr.printed("CASESPACE") or rr.violation or rr.error:
